@@ -202,7 +202,11 @@ func ruleValueKindTotality(c *Ctx, rule string, want func(f *Func) bool, floor i
 			case fails:
 				c.OK(rule, key, sw.Pos(), 4, "kinds without an arm (%s) end in an error at once", strings.Join(missing, ", "))
 			default:
-				c.Fail(rule, key, sw.Pos(), "a column value of kind %s matches no arm of this type switch and execution simply continues: such values are silently treated alike (compared as equal, put in one group, left unsorted) instead of being handled or refused", strings.Join(missing, "/"))
+				if hs := writtenOutHelpers(f); len(hs) > 0 {
+					c.Undecided(rule, key, "a column value of kind %s matches no arm of this type switch, which is part of helper code the rules have never seen (%s, written out at its call sites): what the helper's caller does with its 'no match' answer is not decided", strings.Join(missing, "/"), strings.Join(hs, ", "))
+				} else {
+					c.Fail(rule, key, sw.Pos(), "a column value of kind %s matches no arm of this type switch and execution simply continues: such values are silently treated alike (compared as equal, put in one group, left unsorted) instead of being handled or refused", strings.Join(missing, "/"))
+				}
 			}
 		}
 	}
@@ -680,6 +684,16 @@ func tupleCtorUses(w *World, roots []*Func) []tupleCtorUse {
 			continue
 		}
 		seen[f] = true
+		out = append(out, ctorUsesIn(w, f)...)
+	}
+	sort.Slice(out, func(i, j int) bool { return out[i].call.Pos() < out[j].call.Pos() })
+	return out
+}
+
+// ctorUsesIn: the calls of catalog-row constructors (functions returning a Tuple) in the body of f.
+func ctorUsesIn(w *World, f *Func) []tupleCtorUse {
+	var out []tupleCtorUse
+	{
 		ast.Inspect(f.Decl.Body, func(x ast.Node) bool {
 			call, ok := x.(*ast.CallExpr)
 			if !ok {
@@ -746,12 +760,14 @@ func rulePrecheckSameRows(c *Ctx, rule string) {
 	sortSites(sites)
 	var preRoots, postRoots []*Func
 	changed := false
+	var firstChange token.Pos
 	for _, cs := range sites {
 		if cs.InLit != nil || len(cs.Targets) == 0 {
 			continue
 		}
 		if !changed && cg.Reach(cs.Targets...)[ins] {
 			changed = true
+			firstChange = cs.Call.Pos()
 		}
 		if changed {
 			postRoots = append(postRoots, cs.Targets...)
@@ -806,6 +822,14 @@ func rulePrecheckSameRows(c *Ctx, rule string) {
 	}
 	post := tupleCtorUses(w, postRoots)
 	pre := tupleCtorUses(w, preRoots)
+	// a pre-check (or an insert helper) that was written out inside createTable itself builds its rows there
+	for _, u := range ctorUsesIn(w, f) {
+		if u.call.Pos() < firstChange {
+			pre = append(pre, u)
+		} else {
+			post = append(post, u)
+		}
+	}
 	if len(post) == 0 {
 		c.Undecided(rule, f.Name+"|catalog-rows", "the insert path builds its catalog rows without a constructor function the pre-check could share")
 		return
